@@ -300,9 +300,5 @@ def run(ck):
 
 
 def replay(path):
-    d = json.load(open(path))
-    rep = d.get("replay") or {}
-    print(json.dumps({k: rep.get(k) for k in ("sql", "scan", "impl", "want", "model", "tags")}, indent=1, default=str))
-    if rep.get("sql_script"):
-        print(rep["sql_script"])
-    return 0
+    from checks.c12 import replay_case
+    return replay_case(path, "c13", "drv_c13")
